@@ -700,3 +700,16 @@ pub trait Timings {
         self.get_rx_window_lead_time_ms()
     }
 }
+
+#[cfg(lora_rs_verif)]
+impl<R, T, G, const N: usize, const D: usize> Device<R, T, G, N, D>
+where
+    R: radio::PhyRxTx + Timings,
+    T: radio::Timer,
+    G: RngCore,
+{
+    /// Verification hook: read-only snapshot of the MAC state.
+    pub fn verif_snapshot(&self) -> crate::mac::verif::Snapshot {
+        self.mac.verif_snapshot()
+    }
+}
